@@ -542,7 +542,8 @@ def exists_form(I: Interp, g, tree):
             return None
         inner = list(iter_nodes(node[2]))
         rets = [(n, c) for n, c in inner if n[0] == "return" and not any(x[0] == "call" for x in c)]
-        others = [n for n, c in inner if n[0] in ("mutate", "setattr", "setitem", "break", "raise", "yield", "extcall", "dyncall")]
+        others = [n for n, c in inner if n[0] in ("mutate", "setattr", "setitem", "break", "raise", "yield", "extcall", "dyncall")
+                  and not (n[0] == "extcall" and str(n[1]).startswith("re."))]       # (a pattern test changes nothing)
         if len(rets) != 1 or others or rets[0][0][1] != TRUE:
             return None
         gs = guards_in_ctx(rets[0][1])
